@@ -16,7 +16,7 @@ BUFS = [1, 2, 7, 1023, 1024, 1025, 4096, 8192, 65536]
 
 
 def consumption(rng, size):
-    k = rng.below(6)
+    k = rng.below(8)
     if k == 0:
         return [], "none"
     if k == 1:
@@ -27,7 +27,12 @@ def consumption(rng, size):
         return [(size, rng.choice(BUFS[2:]))], "exact-no-eof"
     if k == 4:
         return [(rng.choice([1, 3]), 1), (rng.choice([1, 10, 2000]), rng.choice(BUFS))], "part2"
-    return [(1, 1)], "one-byte"
+    if k == 5:
+        return [(1, 1)], "one-byte"
+    # a zero-length read (an application quirk) ends the readable body but must not move the boundary
+    if k == 6:
+        return [(1, 0)], "zero-read"
+    return [(rng.choice([1, 2, 5]), rng.choice([1, 2, 7])), (1, 0)], "part+zero-read"
 
 
 def finisher(rng, tag):
